@@ -125,7 +125,7 @@ impl Prop for C01 {
                 both_modes(Grammar::Lib, &f.text, st, &f.name)?;
             }
             "svgen" => {
-                let p = svgen::generate(t, &svgen::Cfg::default());
+                let p = svgen::generate_mixed(t, &svgen::Cfg::default());
                 let mut feats = Feats::default();
                 let text = p.render(t, &TriviaCfg::full(), &mut feats);
                 let ok = both_modes(Grammar::Sv, &text, st, "svgen")?;
